@@ -153,6 +153,7 @@ impl<T: Sync + Send + 'static> Worker<T> {
     }
 
     pub(crate) unsafe fn run(&mut self, pattern_status: pattern::Status, cleared: bool) {
+        verif_point!(RunEntry);
         self.running = true;
         self.was_canceled = false;
 
@@ -162,13 +163,18 @@ impl<T: Sync + Send + 'static> Worker<T> {
             self.matches.clear();
         }
 
+        verif_point!(RunAfterClearedReset);
         // TODO: be smarter around reusing past results for rescoring
         if self.pattern.is_empty() {
             self.reset_matches();
+            verif_point!(RunAfterResetMatches);
             self.process_new_items_trivial();
+            verif_point!(RunBeforeNotifyCheck);
             if self.should_notify.load(atomic::Ordering::Relaxed) {
                 (self.notify)();
             }
+            verif_point!(RunAfterNotify);
+            verif_point!(RunReturn);
             return;
         }
 
@@ -176,6 +182,7 @@ impl<T: Sync + Send + 'static> Worker<T> {
             self.reset_matches();
         }
 
+        verif_point!(RunAfterResetMatches);
         let mut unmatched = AtomicU32::new(0);
         if pattern_status != pattern::Status::Unchanged && !self.matches.is_empty() {
             self.process_new_items_trivial();
@@ -204,6 +211,8 @@ impl<T: Sync + Send + 'static> Worker<T> {
             self.process_new_items(&unmatched);
         }
 
+        verif_point!(RunAfterScan);
+        verif_point!(RunBeforeSort);
         let canceled = par_quicksort(
             &mut self.matches,
             |match1, match2| {
@@ -240,15 +249,19 @@ impl<T: Sync + Send + 'static> Worker<T> {
             &self.canceled,
         );
 
+        verif_point!(RunAfterSort);
         if canceled {
             self.was_canceled = true;
         } else {
             self.matches
                 .truncate(self.matches.len() - take(unmatched.get_mut()) as usize);
+            verif_point!(RunBeforeNotifyCheck);
             if self.should_notify.load(atomic::Ordering::Relaxed) {
                 (self.notify)();
             }
+            verif_point!(RunAfterNotify);
         }
+        verif_point!(RunReturn);
     }
 
     fn reset_matches(&mut self) {
